@@ -3,7 +3,10 @@ use crate::push::instructions::InstructionCache;
 use crate::push::state::PushState;
 use crate::push::stack::PushPrint;
 use crate::push::vector::IntVector;
+#[cfg(not(feature = "verif"))]
 use std::collections::HashMap;
+#[cfg(feature = "verif")]
+use crate::push::verif_seam::DetMap as HashMap;
 use std::fmt;
 use std::hash::{Hash, Hasher};
 #[cfg(not(feature = "verif"))]
